@@ -750,9 +750,11 @@ pub fn decrypt_chunk_with_keys(
     key_store: &TactKeyStore,
     block_index: usize,
 ) -> BlteResult<Vec<u8>> {
-    if data.len() < 17 {
+    // 15 bytes of header (with a 4-byte IV) and at least the encrypted mode byte: an empty payload
+    // encrypted with inner mode N is 16 bytes. The fields are bounds-checked one by one below.
+    if data.len() < 16 {
         return Err(BlteError::CompressionError(format!(
-            "Encrypted chunk too short: {} bytes (minimum 17)",
+            "Encrypted chunk too short: {} bytes (minimum 16)",
             data.len()
         )));
     }
